@@ -308,6 +308,36 @@ def r9(ctx):
     import c07
     c07.r3(ctx)
 
+def r10(ctx):
+    """Delivery from the transport reader: a completed fragment is taken out of the assembler only when it is what pop() returns.
+    pop() hands out a pending link-layer message first and leaves the assembler alone in that case; read() returns as soon as it has
+    recorded a link-layer message, so a message and a newly completed fragment are never both pending behind one read. Either half
+    alone is harmless; together they throw away the fragment that follows a link status request."""
+    prog = ctx.prog
+    pb = prog.body("transport::real::reader::Reader::pop")
+    ps = ctx.sym(pb)
+    ap = call_sites(pb, r"real::assembler::Assembler::pop$")
+    if len(ap) != 1:
+        raise AnchorError("Reader::pop: Assembler::pop sites %d" % len(ap))
+    ctx.require_guards(pb, ap[0].idx, [("no link-layer message pending", g_is(lambda x: mentions_call(x, r"Option<.*>::take$|Option::take$") and mentions_field(x, "pending_link_layer_message"), "None"))], "pop:fragment-only-when-returned", "Assembler::pop() in Reader::pop")
+    rb = prog.abody("transport::real::reader::Reader::read")
+    reads = {c.idx for c in call_sites(rb, r"link::layer::Layer::read$")}
+    if not reads:
+        raise AnchorError("Reader::read: Layer::read call")
+    n = 0
+    for b, si, st in field_writes(rb, "pending_link_layer_message"):
+        rv = st.rv
+        n += 1
+        # after recording a message the function returns without reading another frame
+        again = any(rb.can_reach(b.idx, r_) and r_ != b.idx for r_ in reads if r_ in rb.reachable(b.idx) and r_ != b.idx)
+        after = set()
+        for s_ in rb.succs(b.idx):
+            after |= rb.reachable(s_)
+        ctx.check(not (after & reads), "read:returns-after-link-message#%d" % n, "read() returns once a link-layer message is recorded", rb.where(b.idx), bad_detail="Reader::read keeps reading after recording a link-layer message: a fragment completed by a later frame is pending together with the message, and pop() returns only one of them")
+    if n < 2:
+        raise AnchorError("Reader::read: pending_link_layer_message writes %d" % n)
+
+
 RULES = [
     ("C08.R1", "T2", "continuation segments: sequence AND source equality; rejects drop the assembly", r1),
     ("C08.R2", "T2", "no assembly without FIR; FIR restarts; unread fragment replaced", r2),
@@ -318,4 +348,5 @@ RULES = [
     ("C08.R7", "T3", "reader and writer are reset on every task exit", r7),
     ("C08.R8", "T8/T2", "fragments survive the link receive buffer wrap-around; a broadcast is a single FIR&FIN segment (shared with C06.R9, C07.R8)", r8),
     ("C08.R9", "T2+T4", "the expected frame-count bit toggles only on delivery (shared with C07.R3)", r9),
+    ("C08.R10", "T2/T3", "the assembler is popped only when its fragment is returned; read() returns after recording a link-layer message", r10),
 ]
